@@ -112,7 +112,7 @@ class Exec:
         self.uni = uni; self.scope = dict(scope or {}); self.obls = []; self.name = name
         self.prune = prune; self.call_model = call_model or {}; self._solver = None; self.npaths = 0
         self.inline_repo_funcs = inline_repo_funcs; self.assumptions = set(); self.dropped = set()
-        self._axioms = None; self.nprune = 0; self.raised = []; self.on_yield = None; self.loop_contracts = {}; self.loop_index = {}; self.fields_mode = False; self.method_names = {'values', 'items', 'keys', 'get'}; self.ghost_unhashable = False
+        self._axioms = None; self.nprune = 0; self.raised = []; self.on_yield = None; self.yield_resume = None; self.loop_contracts = {}; self.loop_index = {}; self.fields_mode = False; self.method_names = {'values', 'items', 'keys', 'get'}; self.ghost_unhashable = False
     # ------------------------------------------------------------ helpers
     def obl(self, st, kind, goal, where=''):
         self.obls.append(Obl(f'{self.name}.{kind}.{len(self.obls)}', kind, st.pc, goal, where))
@@ -385,8 +385,15 @@ class Exec:
             s = s.ev('yield', v, idx)
             if self.on_yield is not None: self.on_yield(self, s, v, idx)
             if idx is not None: s = s.set('__nyield', VInt(self.as_int(idx) + 1))
-            outs.append((s, VPy(None)))
+            if self.yield_resume is not None:
+                # a suspension point: the caller resumes with a sent value (None for next()) or by throwing an exception in
+                sent, thrown, thrown_pre = self.yield_resume(self, s)
+                self.raised.append((s.assume(thrown_pre).ev('resume', 'throw', thrown), VObj(thrown)))
+                outs.append((s.ev('resume', 'send', sent), VObj(sent)))
+            else: outs.append((s, VPy(None)))
         return outs
+    def e_Await(self, n, st):
+        return [(s.ev('await'), v) for s, v in self.eval(n.value, st)]
     def e_YieldFrom(self, n, st):
         return [(s.ev('yield_from', v), VObj(M.fresh('yield_from_result'))) for s, v in self.eval(n.value, st)]
     def e_Lambda(self, n, st):
@@ -826,6 +833,7 @@ class Exec:
             outs.append(('next', s.assume(t), None))
         return outs
     def s_Import(self, n, st): return [('next', st, None)]
+    s_Global = s_Import; s_Nonlocal = s_Import
     # ---- loops: summarisation of `for v in <symbolic iterable>: body` whose iterations carry no state (appendix E)
     def symiter(self, s, v):
         if isinstance(v, VSlice):
@@ -891,6 +899,19 @@ class Exec:
             se = havoc(s0, 'exit'); se = se.assume(inv(self, L, envof(se), B, se))
             se = se.set(n.target.id, VObj(M.fresh('lastitem'))) if isinstance(n.target, ast.Name) else se
             outs.append(('next', se.ev('loop_exhausted', name), None))
+        return outs
+    def s_While(self, n, st):
+        """only `while True:` under a one-step contract: the body is executed ONCE from an arbitrary state satisfying the contract's
+        invariant (variables listed by the contract are havoc'd through its `enter` hook); reaching the end of the body is the
+        completion kind `loop_again` (the induction step of a simulation argument)"""
+        lc = self.loop_contracts.get(self.loop_index.get(id(n)))
+        if lc is None or not (isinstance(n.test, ast.Constant) and n.test.value is True) or n.orelse: raise Unsupported('while loop without a one-step contract')
+        s0 = lc['enter'](self, st)
+        outs = []
+        for kind, s2, v in self.exec_block(n.body, s0):
+            if kind in ('next', 'continue'): outs.append(('loop_again', s2, None))
+            elif kind == 'break': outs.append(('next', s2, None))
+            else: outs.append((kind, s2, v))
         return outs
     def s_For(self, n, st):
         if n.orelse: raise Unsupported('for/else')
